@@ -1712,13 +1712,17 @@ fn compile_expr(
                 ty
             );
         }
-        EInherentMethod { ty, .. } => {
-            // EInherentMethod should only appear as the func of ECall
-            // If it appears standalone, we can't resolve the implementation without knowing the self type
-            panic!(
-                "EInherentMethod should only appear as the function in ECall, not standalone. Type: {:?}",
-                ty
-            );
+        EInherentMethod {
+            receiver_ty,
+            method_name,
+            ty,
+            ..
+        } => {
+            // `Type::method` used as a value: the function the call form would call
+            core::Expr::EVar {
+                name: inherent_method_fn_name(receiver_ty, &method_name.0),
+                ty: ty.clone(),
+            }
         }
         EToDyn {
             trait_name,
